@@ -1238,7 +1238,7 @@ class C41Macros(Oracle):
             got[(e[1], e[2])] = got.get((e[1], e[2]), 0) + 1
         body_tokens = {c.token for m in self.tree.walk() if m.kind == "Macro" for c in m.walk() if c.token}
         outside = {n.token for n in self.tree.walk() if n.token and not any(a.kind == "Macro" for a in n.ancestors())}
-        for tok in body_tokens - outside:
+        for tok in sorted(body_tokens - outside):
             # a token may belong to several definitions of one macro name; compare totals
             if got.get(tok, 0) != exp_counts.get(tok, 0) and tok[0] == "mark":
                 ctx = "@macro_defined_in_ended_block" if macro_called_outside_its_block(self.tree) else ""
